@@ -86,7 +86,7 @@ def step (line : String) : String :=
         | "vector" => do let bs ← parseRats? beta; pure (Viterbi.withVectorBeta frows bs)
         | _ => none)
       if pts.length ≠ rows.length then none else
-      let r := Viterbi.viterbi K pts
+      let r := Viterbi.viterbiFast K pts
       pure (showNats r.1 ++ " " ++ showRat r.2)
   | ["totalcost", mode, beta, rows, labels] => opt do
       let rows ← parseRatss? rows
